@@ -214,19 +214,31 @@ class Run:
         known_seen = {}
         new_viol = 0
         for sig, vs in by_sig.items():
-            v = min(vs, key=lambda x: len(json.dumps(jsonable(x['case']))))
-            # every verdict is re-established from scratch, twice, without the explorer
-            try:
-                r1 = guard(lambda: self.mod.replay(unjson(jsonable(v['case']))))
-                r2 = guard(lambda: self.mod.replay(unjson(jsonable(v['case']))))
-            except Exception:
-                self.internal_errors.append(f'replay of {sig} raised:\n' + traceback.format_exc())
+            # every verdict is re-established from scratch, twice, without the explorer; the smallest case of the
+            # signature is tried first, and further cases (up to 12) when one does not reproduce - e.g. because it was
+            # only a consequence of state left behind by an earlier execution in the same worker
+            cands = sorted(vs, key=lambda x: len(json.dumps(jsonable(x['case']))))[:12]
+            v = r1 = r2 = None
+            failed = []
+            for cand in cands:
+                try:
+                    a = guard(lambda: self.mod.replay(unjson(jsonable(cand['case']))))
+                    b = guard(lambda: self.mod.replay(unjson(jsonable(cand['case']))))
+                except Exception:
+                    failed.append(f'replay of {sig} raised:\n' + traceback.format_exc())
+                    continue
+                if a is None or b is None or a != b:
+                    failed.append(
+                        f'violation {sig} did not reproduce identically on replay: explorer said {cand["what"]!r}; '
+                        f'replay 1 {a!r}; replay 2 {b!r}; case={jsonable(cand["case"])!r}')
+                    continue
+                v, r1, r2 = cand, a, b
+                break
+            if v is None:
+                self.internal_errors.extend(failed[:2])
                 continue
-            if r1 is None or r2 is None or r1 != r2:
-                self.internal_errors.append(
-                    f'violation {sig} did not reproduce identically on replay: explorer said {v["what"]!r}; '
-                    f'replay 1 {r1!r}; replay 2 {r2!r}; case={jsonable(v["case"])!r}')
-                continue
+            if failed:
+                res['notes'].append(f'{len(failed)} case(s) of signature {sig} did not reproduce on replay (state left by earlier executions?)')
             if sig in known_sigs:
                 known_seen[sig] = len(vs)
                 out.append(f'KNOWN-FINDING: property={self.pid} {known_sigs[sig]["description"]} '
